@@ -274,24 +274,33 @@ def split_history(ops, loads):
     return out
 
 
-def accepted_prefix(text, state_names):
-    """for a text whose load failed: the text consisting of its leading good items (the part Parse had already added).
-    None when the text is a syntax error or starts with a bad item."""
-    if text["syntax"]:
-        return None
-    pre = []
-    for it in text["items"]:
-        if not it["good"]:
-            break
-        pre.append(it)
-    if not pre or len(pre) == len(text["items"]) and False:
-        return None
-    return pre
+def item_key(it):
+    return (it["kind"], it["mod"], max(it["revs"], default=""))
 
 
-def batch_for(texts, acc):
+def simulate(texts, ops):
+    """which leading items of every load Modules.Parse adds, by the rule of Parse/add: stop at the first bad item or at
+    the first (kind, name, latest revision) that is already loaded.  Returns per load (text index, items added, whole
+    text accepted).  Only used to name the accepted prefix of a partially failed text and as a sanity check."""
+    loaded, out = set(), []
+    for op in ops:
+        if op == "P":
+            continue
+        t = texts[int(op[1:])]
+        n = 0
+        if not t["syntax"]:
+            for it in t["items"]:
+                if not it["good"] or item_key(it) in loaded:
+                    break
+                loaded.add(item_key(it))
+                n += 1
+        out.append((int(op[1:]), n, (not t["syntax"]) and n == len(t["items"])))
+    return out
+
+
+def batch_for(texts, acc, opts="-"):
     sub = [texts[i] for i in acc]
-    return process_line(sub, ["L%d" % k for k in range(len(sub))] + ["P"])
+    return process_line(sub, ["L%d" % k for k in range(len(sub))] + ["P"], opts)
 
 
 def first_diff(a, b, path=""):
@@ -325,21 +334,27 @@ class Case:
                                 items=[dict(good=i["good"], src=i["src"]) for i in t["items"]]) for t in self.texts])
 
 
-def partial_variant(texts, acc, failed, order_ops):
-    """the batch that also loads, at its place in the load order, the accepted prefix of every partially failed text"""
-    sub, seen = [], False
-    for kind, i in order_ops:
-        if kind == "ok":
+def partial_variant(texts, ops, upto_p, opts):
+    """the batch that also loads, at its place in the load order, the accepted prefix of every partially failed text
+    among the loads before the upto_p-th P (None when there is no such text)"""
+    sub, seen, li, p = [], False, 0, 0
+    sim = simulate(texts, ops)
+    for op in ops:
+        if op == "P":
+            if p == upto_p:
+                break
+            p += 1
+            continue
+        i, n, whole = sim[li]
+        li += 1
+        if whole:
             sub.append(texts[i])
-        else:
-            t = texts[i]
-            pre = accepted_prefix(t, None)
-            if pre and len(pre) < len(t["items"]):
-                sub.append(text_of(t["name"], pre))
-                seen = True
+        elif n > 0:
+            sub.append(text_of(texts[i]["name"], texts[i]["items"][:n]))
+            seen = True
     if not seen:
         return None
-    return process_line(sub, ["L%d" % k for k in range(len(sub))] + ["P"])
+    return process_line(sub, ["L%d" % k for k in range(len(sub))] + ["P"], opts)
 
 
 def load_order(ops, loads, upto_p):
@@ -368,7 +383,7 @@ def metamorphic(res, cases, stats, max_report=4):
         if j is None:
             continue
         for acc, failed in split_history(c.ops, j["loads"]):
-            bl = batch_for(c.texts, acc)
+            bl = batch_for(c.texts, acc, c.opts)
             batch_lines.setdefault(bl, None)
     keys = list(batch_lines)
     outs = run_go(keys)
@@ -389,7 +404,7 @@ def metamorphic(res, cases, stats, max_report=4):
             stats["process_runs"] += 1
             run = j["runs"][p]
             stats["runs_with_errors" if run["errors"] else "runs_clean"] += 1
-            bl = batch_for(c.texts, acc)
+            bl = batch_for(c.texts, acc, c.opts)
             b = parse(batch_lines[bl])
             if b is None or any(l != "ok" for l in b["loads"]):
                 # a text accepted in the history is not accepted by the fresh set
@@ -401,7 +416,7 @@ def metamorphic(res, cases, stats, max_report=4):
     pv_lines = {}
     for c, p, run, bl, b, loaddiff in second:
         j = parsed[cases.index(c)]
-        pv = partial_variant(c.texts, None, None, load_order(c.ops, j["loads"], p))
+        pv = partial_variant(c.texts, c.ops, p, c.opts)
         if pv:
             pv_lines[pv] = None
     keys = list(pv_lines)
@@ -409,7 +424,7 @@ def metamorphic(res, cases, stats, max_report=4):
         pv_lines[k] = o
     for c, p, run, bl, b, loaddiff in second:
         j = parsed[cases.index(c)]
-        pv = partial_variant(c.texts, None, None, load_order(c.ops, j["loads"], p))
+        pv = partial_variant(c.texts, c.ops, p, c.opts)
         if pv:
             v = parse(pv_lines[pv])
             if v is not None and all(l == "ok" for l in v["loads"]) and v["runs"][0] == run:
